@@ -136,9 +136,21 @@ def run(chk):
             for k in range(1, len(stations) - 1):
                 stations[k] = cps[min(len(cps) - 1, k)]
             stations = sorted(set(stations))
+        step_at = None
+        if it == 1:
+            # (enumerated) a step change of the airfoil, written with a repeated station, exactly on a control point of a two-sided wing
+            # (linear grid, N = 5: control point at 0.5): either neighbour is the section's airfoil there, on both sides the same one
+            ac["wings"]["w"]["grid"] = {"N": 5, "distribution": "linear", "reid_corrections": False}
+            ac["wings"]["w"]["side"] = "both"
+            while len(names) < 2:
+                names.append(names[0])
+            stations, step_at = [0.0, 0.5, 0.5, 1.0], 0.5
+            chk.count("forced=step-on-control-point")
         chk.count("stations=%d" % len(stations))
         chk.count("station_on_cp=%s" % on_cp)
         afl = [[s, names[k % len(names)]] for k, s in enumerate(stations)]
+        if step_at is not None:
+            afl = [[0.0, names[0]], [0.5, names[0]], [0.5, names[1]], [1.0, names[1]]]
         ac["wings"]["w"]["airfoil"] = afl
         try:
             sc = gen.build_scene(MX, {"scene": {"atmosphere": {"rho": 0.0023769}}}, [("a", ac, {"velocity": 50.0, "alpha": 2.0}, {"flap": rng.choice([0.0, 4.0, -7.0])})])
@@ -173,6 +185,11 @@ def run(chk):
                 descr.append(dict(what="blend:" + fn, side=seg.side, cps=cps, spans=spans))
                 # independent statement of the property
                 exp = np.array([np.interp(cps[i], spans, [vals[k][i] for k in range(len(vals))]) for i in range(N)])
+                if step_at is not None:
+                    # on the step itself either of the two airfoils may be taken - the one taken is checked to be the same on both halves below
+                    for i in range(N):
+                        if cps[i] == step_at and (abs(got[i] - vals[1][i]) <= 1e-10 * abs(vals[1][i]) + 1e-12):
+                            exp[i] = vals[1][i]
                 if not np.allclose(got, exp, rtol=1e-10, atol=1e-12):
                     chk.violation("blend:%s:%s" % (seg.side, fn), dict(kind="blend", aircraft=ac, segment=seg.name, function=fn, got=got, expected=exp,
                                                                          cps=cps, spans=spans))
